@@ -17,4 +17,6 @@ def check(ctx, rep):
     rxr.rx_12(ctx, rep)          # the BOM is zero-width only as the first character
     from ..rules import dim as _pos1
     _pos1.pos_1(ctx, rep)       # an offset is never recovered by searching for the text
+    from ..rules import tok as _tok14
+    _tok14.tok_14(ctx, rep)     # the first-line block (BOM, start column) runs for the first line on every path
     rep.note('Not decided: the positions themselves (numeric).')
